@@ -2,42 +2,39 @@
 
 package repository
 
-// Thin export wrappers for the /verif harness (C09/C10/C33/C34). No logic.
+// Thin export wrappers for the /verif harness (C09). No logic.
 
 import (
 	"context"
+	"time"
 
 	"github.com/restic/restic/internal/repository/index"
 	"github.com/restic/restic/internal/repository/pack"
 	"github.com/restic/restic/internal/restic"
 )
 
-// VerifPackInfo mirrors the unexported packInfo.
-type VerifPackInfo struct {
+// VerifC09PackInfo mirrors the unexported packInfo.
+type VerifC09PackInfo struct {
 	UsedBlobs, UnusedBlobs, DuplicateBlobs uint
 	UsedSize, UnusedSize                   uint64
 	Tpe                                    restic.BlobType
 	Uncompressed                           bool
 }
 
-func verifPI(p packInfo) VerifPackInfo {
-	return VerifPackInfo{p.usedBlobs, p.unusedBlobs, p.duplicateBlobs, p.usedSize, p.unusedSize, p.tpe, p.uncompressed}
-}
-
-func VerifPackInfoFromIndex(ctx context.Context, idx restic.ListBlobser, usedBlobs *index.AssociatedSet[uint8], stats *PruneStats, printer restic.Printer) (*index.AssociatedSet[uint8], map[restic.ID]VerifPackInfo, error) {
+func VerifC09PackInfoFromIndex(ctx context.Context, idx restic.ListBlobser, usedBlobs *index.AssociatedSet[uint8], stats *PruneStats, printer restic.Printer) (*index.AssociatedSet[uint8], map[restic.ID]VerifC09PackInfo, error) {
 	keep, ip, err := packInfoFromIndex(ctx, idx, usedBlobs, stats, printer)
-	var out map[restic.ID]VerifPackInfo
+	var out map[restic.ID]VerifC09PackInfo
 	if ip != nil {
-		out = make(map[restic.ID]VerifPackInfo, len(ip))
-		for k, v := range ip {
-			out[k] = verifPI(v)
+		out = make(map[restic.ID]VerifC09PackInfo, len(ip))
+		for k, p := range ip {
+			out[k] = VerifC09PackInfo{p.usedBlobs, p.unusedBlobs, p.duplicateBlobs, p.usedSize, p.unusedSize, p.tpe, p.uncompressed}
 		}
 	}
 	return keep, out, err
 }
 
-// VerifPlanSets exposes the decision sets of a plan (copies).
-func VerifPlanSets(plan *PrunePlan) (removeFirst, repack, remove, ignore restic.IDs, keep []restic.BlobHandle, hasKeep bool) {
+// VerifC09PlanSets exposes the decision sets of a plan (copies).
+func VerifC09PlanSets(plan *PrunePlan) (removeFirst, repack, remove, ignore restic.IDs, keep []restic.BlobHandle, hasKeep bool) {
 	removeFirst = plan.removePacksFirst.List()
 	repack = plan.repackPacks.List()
 	remove = plan.removePacks.List()
@@ -51,8 +48,12 @@ func VerifPlanSets(plan *PrunePlan) (removeFirst, repack, remove, ignore restic.
 	return
 }
 
-// VerifDecodeUnpacked decrypts and decompresses the raw bytes of an unpacked file (index, snapshot).
-func VerifDecodeUnpacked(r *Repository, raw []byte) ([]byte, error) {
+func VerifC09ListPack(ctx context.Context, r *Repository, id restic.ID, size int64) (pack.Blobs, error) {
+	return r.listPack(ctx, id, size)
+}
+
+// VerifC09DecodeUnpacked decrypts and decompresses the raw bytes of an unpacked file (index, snapshot).
+func VerifC09DecodeUnpacked(r *Repository, raw []byte) ([]byte, error) {
 	nonce, ciphertext := raw[:r.key.NonceSize()], raw[r.key.NonceSize():]
 	plaintext, err := r.key.Open(nil, nonce, ciphertext, nil)
 	if err != nil {
@@ -61,8 +62,5 @@ func VerifDecodeUnpacked(r *Repository, raw []byte) ([]byte, error) {
 	return r.decompressUnpacked(plaintext)
 }
 
-func VerifListPack(ctx context.Context, r *Repository, id restic.ID, size int64) (pack.Blobs, error) {
-	return r.listPack(ctx, id, size)
-}
-
-func VerifMasterIndex(r *Repository) *index.MasterIndex { return r.idx }
+// VerifC09SetLockWait shortens the pause between creating a lock and checking for other locks.
+func VerifC09SetLockWait(d time.Duration) { waitBeforeLockCheck = d }
